@@ -26,13 +26,16 @@ P3 = (2, 'bugfix/b', 'development/10.0')
 
 
 # -- monitors evaluated after every observable remote update of every job -------------------
-def sym_monitors(shape, prs, which):
+def sym_monitors(shape, prs, which, created=()):
+    """`created`: destination branches a create-branch job of the history publishes (theirs to create)."""
     mons = []
     if 'C01' in which:
         mons.append(GF.mon_inclusion(shape))
     if 'C08' in which:
         mons.append(GF.mon_fast_forward(shape))
-        mons.append(GF.mon_foreign(shape))
+
+        mons.append(lambda repo, op: [] if (op['ref'] in created and op['kind'] == 'update' and op.get('old') is None)
+                    else GF.mon_foreign(shape)(repo, op))
 
         def mon_resurrect(repo, op):
             if op['kind'] == 'update' and op['ref'] in shape and op['old'] is None:
@@ -250,17 +253,20 @@ def scen_after_fault(prefix, fault, event):
     return scen
 
 
-def redeliver(s, event, shape_prs):
-    """Re-deliver `event` to a fresh Bert-E, with the documented queue reset
-    (delete the queues, re-evaluate the pull requests) when it reports the
-    queues out of order."""
+def redeliver(s, event, shape_prs, choose=None):
+    """Re-deliver `event` to a fresh Bert-E, with a documented queue reset when it reports the
+    queues out of order: either the rebuild job (POST /api/gwf/queues: removes the queues and
+    re-submits the pull requests that were queued) or the last-resort delete job followed by a
+    manual re-evaluation of every pull request - solver-chosen when a chooser is given."""
     s.new_server()
     rec = s.play([event])[0]
     if rec['out'] in ('QueueOutOfOrder', 'IncoherentQueues'):
-        s.play([('delete_queues',)])
-        for p in shape_prs:
-            s.play([('eval_pr', p.id)])
-        if event[0] != 'eval_pr':
+        kind = ('delete_queues', 'rebuild_queues')[choose('queue_reset', 2)] if choose else 'delete_queues'
+        r = s.play([(kind,)])[0]
+        again = [p.id for p in shape_prs] if kind == 'delete_queues' else list(r.get('put') or [])
+        for pid in again:
+            s.play([('eval_pr', pid)])
+        if event[0] != 'eval_pr' or event[1] not in again:
             rec = s.play([event])[0]
     return rec
 
@@ -290,7 +296,7 @@ def scen_recover(prefix, main, with_refusal=False):
                 rec = s.play([ev + (k,)])[0]
                 if rec['out'] != 'CRASHED':
                     raise HarnessError('crash point %r not reached (%s)' % ((j, k), rec['out']))
-                redeliver(s, ev, s.prs)
+                redeliver(s, ev, s.prs, choose)
             else:
                 s.play([ev])
         # every event is delivered once more at the end of both runs (webhooks fire
@@ -410,6 +416,19 @@ def scen_expect(events, expected):
         got = [r['out'] for r in recs]
         if got != list(expected):
             return ['the jobs ended %s instead of %s' % (got, list(expected))]
+        return []
+    return scen
+
+
+def scen_third_party_survives(events, ref):
+    """Play the events (one of them makes a third party create `ref` while a job runs); the
+    branch must still be there, where its owner put it, at the end."""
+    def scen(s, choose):
+        s.play(events)
+        if getattr(s, 'pending_during', None) is not None:
+            raise HarnessError('the third-party action was never reached (no such push in the job)')
+        if ref not in s.ref_names():
+            return ['C08 foreign ref %s deleted' % ref]
         return []
     return scen
 
@@ -761,13 +780,13 @@ def make_harness(cfg):
     """cfg: dict(shape, prs, mode, no_octopus, scen=<callable>, which=<monitor props>, settings)."""
     def h(ctx):
         prs = [PR(*p) for p in cfg['prs']]
-        mons = sym_monitors(cfg['shape'], prs, cfg.get('which', ()))
+        mons = sym_monitors(cfg['shape'], prs, cfg.get('which', ()), cfg.get('created', ()))
         s = H.SymSession(ctx, cfg['shape'], prs, cfg['mode'], no_octopus=cfg.get('no_octopus', True),
                          settings=cfg.get('settings'), monitors=mons, with_w=cfg.get('with_w', False),
                          extra_refs=cfg.get('extra_refs', ()), nfresh=cfg.get('nfresh', 24),
                          green=cfg.get('green', False), no_conflicts=cfg.get('no_conflicts', False),
                          log_cut=cfg.get('log_cut', True), fresh_prs=cfg.get('fresh_prs', True),
-                         tags=cfg.get('tags', ()))
+                         tags=cfg.get('tags', ()), no_qrefs=cfg.get('no_qrefs', False))
         if 'C06' in cfg.get('which', ()):
             s.repo.monitors.append(GF.mon_handler_builds(cfg['shape'], prs[0], z3.BoolVal(False), s.host))
         choose = SymChooser(ctx)
@@ -1048,6 +1067,11 @@ def family(prop, tier):
         out.append(_cfg('rec:queue:F', 'recover queue 2 targets: evaluate, evaluate queues', F, [P1], 'queue',
                         scen_recover([], [EV1, ('eval_queues',)]), which=W,
                         expect_outcomes=['Queued', 'Merged', 'CRASHED']))
+        out.append(_cfg('rec:queue:F:first', 'recover queue, nothing was ever queued (the queue branches are created by this '
+                        'job, one push each): evaluate, evaluate queues', F, [P1], 'queue',
+                        scen_recover([], [EV1, ('eval_queues',)]), which=W, no_qrefs=True, green=True, no_conflicts=True,
+                        expect_outcomes=['Queued', 'Merged', 'CRASHED', 'QueueOutOfOrder'], signame='recover queue (first queueing)',
+                        sample_mod=3))
         out.append(_cfg('rec:noqueue:F', 'recover noqueue 2 targets', F, [P1], 'noqueue',
                         scen_recover([], [EV1]), which=W, expect_outcomes=['SuccessMessage', 'CRASHED']))
         out.append(_cfg('rec:skip:F', 'recover skip-queue 2 targets', F, [P1], 'skip',
@@ -1264,6 +1288,16 @@ def family(prop, tier):
                             settings=dict(required_peer_approvals=1),
                             which=which, green=True, no_conflicts=True, signame='mirror cache delete',
                             expect_outcomes=['CommandError']))
+        if prop == 'C08':
+            out.append(_cfg('during:queue:F:create-branch', 'somebody creates a branch while a create-branch job runs (before its '
+                            'first push), pull requests being queued: the follow-up queue rebuild works on a clone of its own',
+                            F, [P1], 'queue',
+                            scen_third_party_survives(
+                                [EV1, ('during', 0, ('ref_create', 'feature/third-party', 'development/4.3')),
+                                 ('create_branch', 'development/5.2'), EV1], 'feature/third-party'),
+                            which=which, green=True, no_conflicts=True, signame='third party during create-branch',
+                            created=('development/5.2',),
+                            expect_outcomes=['Queued', 'JobSuccess'], sample_mod=1))
         if tier == 'thorough':
             out.append(_cfg('hist:queue:A', 'history queue 3 targets', A, [P1], 'queue',
                             scen_play([EV1, ('eval_queues',), EV1]), which=which, signame='history queue'))
